@@ -318,8 +318,17 @@ def expand(macro, args):
     pos = _match(pattern, args, 0, binds)
     if pos is None or pos != len(args):
         raise AnchorError("macro %s: invocation does not match its matcher" % macro.name)
-    arg_ids = {t.text for v in binds.values() for t in v if t.kind == "id"}
-    rename = {n: n + "_m" for n in _let_bound(macro.body) if n in arg_ids}
+    arg_ids = {t.text for v in binds.values() for t in v if t.kind == "id"} - {"self", "Self", "crate", "super"}
+    # macro_rules hygiene: an identifier written in the macro body can never refer to a local
+    # variable of the call site, so body identifiers that collide with identifiers passed in
+    # arguments are macro-local bindings and are renamed.
+    body_ids = set()
+    b = macro.body
+    for k, t in enumerate(b):
+        if t.kind == "id" and t.text in arg_ids and not (k > 0 and (is_p(b[k - 1], "$") or is_p(b[k - 1], ".") or is_p(b[k - 1], ":"))) \
+                and not (k + 1 < len(b) and (is_p(b[k + 1], "!") or (is_p(b[k + 1], ":") and k + 2 < len(b) and is_p(b[k + 2], ":")))):
+            body_ids.add(t.text)
+    rename = {n: n + "_m" for n in (set(_let_bound(macro.body)) & arg_ids) | body_ids}
     return _transcribe(macro.body, binds, rename), binds, rename
 
 
